@@ -34,6 +34,9 @@ def history_features(case, F):
         f0 = fired[0]
         pt = f0.get("pt") or [None, None, None]
         feats["fault_kind"] = "death" if f0["kind"] in ("kill", "exit", "cexit") else f0["kind"]
+        if f0["kind"] == "sleep" and any(f.get("kind") in ("kill", "exit", "cexit") and f.get("pt") == f0.get("pt") and f.get("pid") == f0.get("pid") for f in fired[1:]):
+            # linger-then-die at one statement (LK plans): the death is the fault, the linger only widens its window
+            feats["fault_kind"] = "death"
         feats["fault_role"] = f0.get("role")
         feats["fault_func"] = "%s:%s" % (pt[0], pt[1])
     else:
@@ -41,7 +44,22 @@ def history_features(case, F):
         feats["fault_role"] = None
         feats["fault_func"] = None
     feats["ext_kill"] = any(f.get("kind") == "ext_kill" for f in F.faults)
+    # a worker killed at the statement between acquire and release of the management lock in its time-out branch
+    rel = _mgmt_release_rel()
+    feats["death_holding_management_lock"] = bool(rel is not None and any(
+        f.get("kind") in ("kill", "exit", "cexit") and f.get("role") == "worker" and list(f.get("pt") or []) == ["process_executor.py", "_process_worker", rel] for f in F.faults))
     return feats
+
+
+_REL_CACHE = {}
+
+
+def _mgmt_release_rel():
+    if "r" not in _REL_CACHE:
+        from .. import explore
+
+        _REL_CACHE["r"] = explore.rel_of_source("process_executor.py", "_process_worker", "processes_management_lock.release()")
+    return _REL_CACHE["r"]
 
 
 def _innermost_loky_func(tb):
